@@ -15,7 +15,8 @@ RULE = ('Seeded histories of 3-14 operations on one rruleset (cache on/off): mem
         'After EVERY operation the model is compared with a fresh full iteration and the operation\'s own answer; outputs must be '
         'strictly increasing.  The output of an iterator that was created before a later addition is not judged (unspecified), '
         'only its effect on later iterations and queries is.  Non-trivial = the history has an addition after a partial/full '
-        'iteration, or >= 2 members with coinciding instants; distinct = (cache flag, operation-kind sequence).')
+        'iteration, or >= 2 members with coinciding instants; distinct = (cache flag, operation-kind sequence).'
+        ' Stale-iterator sweep: lengths 9/10/11/20 x position of an iterator opened before a modification x kind of modification x position of a newer iterator, then the old one is drained.')
 ASSUMPTIONS = ['member rules are finite and listed through their own iteration (C01)', 'Python set/sorted as the set-algebra model']
 MANIFEST = {
     'technique': 'runtime history checker: random add/iterate/query histories on the real rruleset vs an executable set-algebra model updated per event',
